@@ -41,3 +41,21 @@ package object
 //@ modifies nothing
 //@ ensures[C16.map.attr.methods] oneof(name, "keys", "values", "get", "clear", "copy", "items", "pop", "setdefault", "update") ==> result1 && typeof(result0) == *Builtin && fresh(result0)
 //@ ensures[C16.map.attr.entry] !oneof(name, "keys", "values", "get", "clear", "copy", "items", "pop", "setdefault", "update") ==> result1 == old(haskey(m.items, name)) && (result1 ==> result0 == old(m.items[name]))
+
+// C10: wait() answers exactly the result or the error of the spawned call. A script function is spawned through this
+// adapter; it hands back what the VM's call function answered: the result object itself, and for a failed call an
+// *Error carrying THAT error value (its identity - errors.is - and its text; NewError unwraps an *Error once). Seed
+// C10f rebuilt the error from its text with Errorf: a `%` in the message was mangled and errors.is stopped matching.
+// (cf.res / cf.err only name the two results of the call of the function value; GetCallFunc's flag is named cf.has.)
+//@ func GetCallFunc
+//@ trusted
+//@ modifies nothing
+//@ ensures result1 == uf("cf.has", bool, ctx)
+
+//@ func (*callFuncAdapter).Call
+//@ props C10
+//@ requires c != nil && ctx != nil
+//@ dynensures[cf.names] CallFunc: result0 == uf("cf.res", Object, arg1) && result1 == uf("cf.err", error, arg1)
+//@ let fo = old(c.funcObj)
+//@ ensures[C10.adapter.result] uf("cf.has", bool, ctx) && uf("cf.err", error, fo) == nil ==> result == uf("cf.res", Object, fo)
+//@ ensures[C10.adapter.error] uf("cf.has", bool, ctx) && uf("cf.err", error, fo) != nil && typeof(uf("cf.err", error, fo)) != *Error ==> typeof(result) == *Error && ref(result) != nil && result.(*Error).err == uf("cf.err", error, fo)
